@@ -180,7 +180,7 @@ class Obl:
     def __init__(self, name, harness, defines=None, variant="dbg", unwind=None, unwindset=None, flags=None,
                  timeout=300, mem_gb=8, desc="", funcs=None, bounds="", nontrivial=True, sample=None,
                  extra_src=None, gen_src=None, pipeline="cbmc", dfcc=None, leak=False, backend=None,
-                 no_witness=False, drop_base=None, depth=None, ptrcheck=True):
+                 no_witness=False, drop_base=None, depth=None, ptrcheck=True, cost=None):
         self.name = name
         self.harness = harness
         self.defines = dict(defines or {})
@@ -204,6 +204,7 @@ class Obl:
         self.no_witness = no_witness
         self.drop_base = drop_base or []
         self.depth = depth
+        self.cost = cost            # scheduling hint: heavy obligations start first
         self.ptrcheck = ptrcheck   # False: functional obligation; memory-safety checks are decided by the safety obligations (C01)
 
     def key(self):
@@ -602,7 +603,7 @@ def run_all(obls, jobs=None, budget_s=None):
     for v in sorted(set(o.variant for o in obls)):
         build_lib(v)
     results = [None] * len(obls)
-    order = sorted(range(len(obls)), key=lambda i: -obls[i].timeout)
+    order = sorted(range(len(obls)), key=lambda i: -(obls[i].cost if obls[i].cost is not None else obls[i].timeout))
     sem_mem = threading.Semaphore(jobs)
     t0 = time.time()
 
